@@ -178,6 +178,7 @@ PROPS = {
         "level_note": "Trusted base: krill's own signer for forging messages under harness keys; the rpki-rs based relying-party walk for manifest numbers.",
     },
     "C16": {
+        "fuzz": True,
         "level": "exploration",
         "cases": {"quick": 1600, "thorough": 32000},
         "rule": "cases = sequences of 20-80 (thorough 40-200) generated hostile inputs against one krill instance with a parent CA, two remote children and two publishers: byte-level mutations (truncate, bit flip, byte set, insert, delete, duplicate) "
@@ -203,13 +204,15 @@ PROPS = {
         "rule": "cases = generated (back-end memory/disk, 2-5 request threads with 3-13 (thorough 5-29) requests each, perturbation seed) tuples run on one krill runtime with a parent CA, its child, a sibling CA and an extra publisher: ROA additions and removals, ASPA and BGPsec definitions on any of the three CAs, "
         "key-roll starts, forced sync / refresh / re-publication of all CAs, publications and withdrawals of the extra publisher, and read-outs of every CA, status and repository; in parallel a scheduler stand-in thread runs the task loop of scheduler::run (hook H-task). "
         "The yield points at the storage locks and in the command path sleep/yield pseudo-randomly from the seed. Requests of different threads commute (each thread owns its origin AS, ASPA customer, router key and files), so every serial order has the same answers and end state; "
+        "One case in ten is run against the real daemon instead (start_krill_daemon in the worker, disk storage, testbed mode; parent, child and sibling CA created through the API): the same request sets are sent as HTTP requests by 2-5 client threads, "
+        "the daemon's own HTTP workers and its own scheduler thread do the work, and quiescence is read off the task queue on disk; there the publication slots are reads of the publication server (the publication protocol needs signed messages). "
         "distinct by hash of the case JSON; non-trivial iff at least two threads sent state-changing requests to the same CA and background tasks ran during the concurrent phase",
-        "floors": {"__nontrivial__": 0.70, "same_ca_from_2plus_threads": 0.80, "tasks_ran_concurrently": 0.85, "roa_added": 0.85, "keyroll_started": 0.30, "publisher_files": 0.50, "disk": 0.20},
-        "assumptions": ["requests enter through the manager calls behind the HTTP routes on plain threads (the daemon's worker pool calls the same functions)", "the OS schedules the threads; interleavings are perturbed at the hook points, not enumerated",
+        "floors": {"__nontrivial__": 0.70, "same_ca_from_2plus_threads": 0.80, "tasks_ran_concurrently": 0.80, "roa_added": 0.85, "keyroll_started": 0.30, "publisher_files": 0.45, "disk": 0.20, "daemon": 0.04},
+        "assumptions": ["in nine cases of ten requests enter through the manager calls behind the HTTP routes on plain threads (the daemon's worker pool calls the same functions); in one of ten they go over HTTP to the real daemon", "the OS schedules the threads; interleavings are perturbed at the hook points, not enumerated",
                         "a request or task that does not return within 120 s of wall-clock time counts as a hang; it is reported only if it shows again when the shrunk case is re-run",
                         "key-roll starts may be refused (a roll is already in progress): either answer is serial"],
         "technique": "property-based concurrency testing with commuting request sets: generated multi-threaded request schedules against the real runtime plus scheduler stand-in, with the sequential reference model and the relying-party walk as oracle after quiescence (everything asked for is present once, nothing else, tree valid, RRDP/rsync/publisher views agree), "
-        "per-request answers compared with the serial answer, watchdog for completion",
+        "per-request answers compared with the serial answer, watchdog for completion; the same generator and oracle against the real daemon over HTTP (its worker and scheduler threads), plus 'every effective ROA request is in the command history exactly once'",
         "level_text": "Exploration by generated concurrent schedules with random perturbation. Sampling of schedules, not proof; a deadlock that needs a rare interleaving can be missed.",
         "level_note": "Trusted base: OS scheduling, the hook points, the reference model shared with C01.",
     },
